@@ -39,6 +39,7 @@ from octave_mcp.core.constraints import (
     RequiredConstraint,
     TypeConstraint,
 )
+from octave_mcp.core.emitter import emit_value
 
 if TYPE_CHECKING:
     from octave_mcp.core.schema_extractor import SchemaDefinition
@@ -386,7 +387,10 @@ class GBNFCompiler:
         Returns:
             GBNF alternation: ("value1" | "value2" | "value3")
         """
-        escaped = [self._escape_literal(v) for v in constraint.allowed_values]
+        # The generated text is read back by the OCTAVE reader, so each value is written the
+        # way the canonical emitter writes it (quoted when a bare word would not read back as
+        # the same string).
+        escaped = [self._escape_literal(emit_value(v)) for v in constraint.allowed_values]
         quoted = [f'"{v}"' for v in escaped]
         return f"({' | '.join(quoted)})"
 
@@ -399,7 +403,14 @@ class GBNFCompiler:
         Returns:
             GBNF literal: "value"
         """
-        value = str(constraint.const_value)
+        # Write the constant the way the canonical emitter writes it: true/false/null in OCTAVE
+        # spelling (not Python's True/None) and strings quoted when a bare word would not read
+        # back as the same string, so that the generated text validates against this CONST.
+        const_value = constraint.const_value
+        if const_value is None or isinstance(const_value, bool | int | float | str):
+            value = emit_value(const_value)
+        else:
+            value = str(const_value)
         escaped = self._escape_literal(value)
         return f'"{escaped}"'
 
